@@ -24,7 +24,7 @@ import baize.wsgi.staticfiles as WS
 from baize.exceptions import HTTPException
 
 from engine import report
-from engine.forksym import Engine, SInt, Unsupported, conc, cur, term_of
+from engine.forksym import Engine, Pruned, SInt, Unsupported, conc, cur, term_of
 from engine.shims import Shims
 from engine.symseq import SSeq, SStr, _items_of, in_set
 from engine.vloop import drive
@@ -38,6 +38,7 @@ TREE: Dict[str, str] = {
     "/srv/www/x.html": "f", "/srv/www/..n": "f", "/srv/www/index.html": "f", "/srv/www/e": "d", "/srv/www/e/h": "f",
     "/srv/wwwx": "d", "/srv/wwwx/s": "f", "/srv/s": "f", "/srv/www.html": "f", "/srv/x.html": "f",
     "/srv/www/k": "s",  # an entry that is neither a regular file nor a directory (unix socket): never served
+    "/srv/www/\u00e9": "f",  # a regular file whose name is not ASCII: served at its own path on both interfaces
     "/srv/void": "d", "/srv/www/up": "l:/srv/void",  # a symbolic link inside the directory to an EMPTY directory outside it
 }
 sympath.SYMLINKS.update({k: v[2:] for k, v in TREE.items() if v.startswith("l:")})
@@ -169,7 +170,7 @@ class UrlModel:
         if scope is not None:
             self.path = scope.get("root_path", "") + scope["path"]
         elif environ is not None:
-            self.path = environ.get("SCRIPT_NAME", "") + environ.get("PATH_INFO", "")
+            self.path = (environ.get("SCRIPT_NAME", "") + environ.get("PATH_INFO", "")).encode("latin1").decode("utf8", "replace")
         else:
             self.path = url
 
@@ -212,6 +213,17 @@ def _not_found_app(iface):
     return not_found
 
 
+def wsgi_presentation(path):
+    """PEP 3333: the server hands the request path's bytes over as a 'bytes-as-latin-1' native string.  The harness's `path` is the text the
+    client means (the UTF-8 decoding of those bytes), so what a WSGI application finds in PATH_INFO is path.encode('utf-8').decode('latin-1')."""
+    if isinstance(path, SSeq):
+        try:
+            return path.encode("utf-8").decode("latin-1")
+        except UnicodeEncodeError:  # a lone surrogate is not the decoding of any request bytes
+            raise cur()._raise(Pruned())
+    return path.encode("utf-8", "surrogateescape").decode("latin-1")
+
+
 def run_app(iface: str, app_kind: str, path, dirmode: str = "abs", mount: str = "", handle_404: bool = False):
     RecFile.opened = []
     RecRedirect.targets = []
@@ -229,7 +241,7 @@ def run_app(iface: str, app_kind: str, path, dirmode: str = "abs", mount: str = 
     try:
         if iface == "wsgi":
             calls = []
-            body = app({"REQUEST_METHOD": "GET", "PATH_INFO": path, "SCRIPT_NAME": mount}, lambda s, h, e=None: calls.append(s))
+            body = app({"REQUEST_METHOD": "GET", "PATH_INFO": wsgi_presentation(path), "SCRIPT_NAME": mount}, lambda s, h, e=None: calls.append(s))
             list(body)
             status = int(calls[0].split()[0])
         else:
@@ -313,6 +325,11 @@ def job_path(job) -> report.JobResult:
     iface, app_kind, n = job["iface"], job["app"], job["n"]
     eng = Engine(budget_s=job.get("budget", 1800))
     free = SStr.fresh(n, "p", 0, 0x10FFFF, eng.solver)
+    if iface == "wsgi" and n >= 3:
+        # the WSGI presentation (UTF-8 bytes shown as latin-1, undone by the application) costs a fork per encoding class and character:
+        # beyond 2 free characters the WSGI jobs range over ASCII (where path structure lives); non-ASCII names are covered by the jobs with <= 2
+        for c in free.items:
+            eng.solver.add(c.e < 128)
     path = SStr([ord(c) for c in job.get("pre", "")] + free.items + [ord(c) for c in job.get("post", "")])
     shims = make_shims()
     SSeq.NORMALIZE = False
@@ -523,7 +540,7 @@ def concrete_path(w) -> Optional[str]:
         try:
             if iface == "wsgi":
                 calls = []
-                env = {"REQUEST_METHOD": "GET", "PATH_INFO": path, "SCRIPT_NAME": w.get("mount", ""), "wsgi.url_scheme": "http", "SERVER_NAME": "h", "SERVER_PORT": "80", "QUERY_STRING": ""}
+                env = {"REQUEST_METHOD": "GET", "PATH_INFO": wsgi_presentation(path), "SCRIPT_NAME": w.get("mount", ""), "wsgi.url_scheme": "http", "SERVER_NAME": "h", "SERVER_PORT": "80", "QUERY_STRING": ""}
                 body = b"".join(app(env, lambda s, h, e=None: calls.append((s, h))))
                 status = int(calls[0][0].split()[0])
                 loc = dict((k.lower(), v) for k, v in calls[0][1]).get("location")
